@@ -61,6 +61,7 @@ func main() {
 	if *verbose {
 		fmt.Printf("loaded in %.1fs\n", loadSecs)
 	}
+	activeProp = *prop
 	rep := &Report{Prop: *prop, Tier: *tier, Seed: seed, Verif: *verifDir, p: p}
 	for _, be := range p.bindErrs {
 		rep.addFailure("bind", be, "contract does not bind to the code")
